@@ -109,6 +109,7 @@ def run_exerciser(pid, api, options, inner, res, req, d, rec, beside=()):
     for other in beside:          # libraries the emitted one depends on (installed first; the target's files win)
         driver.materialise(other, out)
     driver.materialise(res.response, out)
+    driver.materialise_dep_pb2(req, api, out)
     r = driver.exercise(pid, d, out, req, api, options, inner)
     if r.get("harness_error") and not r.get("violations"):
         raise HarnessError(f"exerciser: {r['harness_error'][-3000:]}")
